@@ -5,8 +5,10 @@ One scenario per input (see TTV/Model/Content.lean `Input` / TTV/Drv/C16.lean fo
   (text cps)                                         text_content round trip
   (json dumped-cps src-cps)                          json_content (json itself is an oracle)
   (decode isText cs chunks whole codec-name)         iter_text/as_text vs decoding the joined bytes
-  (stream isFile data0 data1? pos0 size seek? buffer_now iters caps)   content_from_stream/file on an instrumented stream;
-                                                     caps = short-read plan: the k-th read of an evaluation returns at most caps[k] bytes
+  (stream isFile data0 data1? pos0 size seek? buffer_now iters caps eqs)   content_from_stream/file on an instrumented stream;
+                                                     caps = short-read plan: the k-th read of an evaluation returns at most caps[k] bytes;
+                                                     after the `iters` consumptions `c == c` is evaluated `eqs` times (second part of the log);
+                                                     eqs may be missing (older corpus entries) = 0
   (ctype type subtype ((name value)...))             ContentType.__repr__ -> _make_content_type
   (ctypeSeq ((type subtype params) ...))             the same for several types in one process (a type, a letter-case variant, the type again)
   (copy init ops)                                    _copy_content over a volatile source
@@ -64,6 +66,8 @@ class Spy:
         self.k += 1
         r = self.inner.read(limit)
         self.log.append(['read', n, len(r)])
+        if not r:
+            self.k = 0      # an empty read ends an evaluation of the reader; the plan restarts with the next one (c == c runs two in one call)
         return r
 
     def seek(self, off, whence=0):
@@ -90,7 +94,7 @@ class C16(Prop):
             'pulled, generator dropped) and after a complete/failed decode of an earlier, shorter source: the text must be a function of the bytes alone '
             '(a dependence is reported as a trace outside the model\'s vocabulary); stream: BytesIO and real files, 45 % behind a short-read plan (raw-stream '
             'behaviour: a read returns fewer bytes than asked for before EOF), chunk sizes 1..9 and around the length, offsets -n-2..n+2, '
-            'whence 0/1/2, buffer_now, data replaced between construction and iteration, 1-3 consumptions; ctype: token names, values over an '
+            'whence 0/1/2, buffer_now, data replaced between construction and iteration, 1-3 consumptions and then 0-2 times `c == c` (EVERY consumption of a stream content with a seek offset must yield the bytes from the offset - it seeks again -, and such a content, a file content and a buffered one must equal themselves every time: clauses re-evaluation / eq-self, seed C16-f); ctype: token names, values over an '
             'adversarial alphabet (quotes, backslashes, separators, NUL, non-ASCII, encoded-word markers, line breaks); ctypeSeq: a content type, a variant of it '
             'that differs in letter case only (in parameter values - significant - and/or in type / subtype / parameter names - insignificant), and the type '
             'again, parsed one after the other in a freshly executed private copy of testtools.testresult.real (process state as at start-up, so cases, '
@@ -112,12 +116,15 @@ class C16(Prop):
                    'outside the stated domain, not modelled (audit/C16 borderline list): texts with lone surrogates (text_content accepts them, '
                    'iter_bytes then raises UnicodeEncodeError; the model\'s texts are scalar values); sources yielding mutable bytearray chunks '
                    '(_copy_content keeps the chunk objects); content_from_stream without a seek offset iterated twice (nothing rewinds the stream: the '
-                   'model reproduces the empty second consumption, the spec demands the bytes of the first consumption only); Content.__eq__ with a '
+                   'model reproduces the empty second consumption, the spec demands the bytes of the first consumption only - and for the same reason `c == c` is '
+                   'legitimately False for such a content with data left, and for an offset counted from the current position (seek_whence=1): the model '
+                   'reproduces both, the spec claims `c == c` only for files, buffered contents and offsets counted from the start or the end; with an offset '
+                   'EVERY consumption is specified, for whence 1 relative to where the previous evaluation left the stream); Content.__eq__ with a '
                    'non-Content operand (AttributeError) and ContentType.__eq__ for subclass instances (type(other) is not ContentType)',
                    'iter_text(): for codecs other than the three modelled ones the law of the incremental decoder is ASSUMED; it is known false for the '
                    'stdlib codecs utf-16 / utf-32 (BOM-less input), utf-8-sig (truncated BOM), punycode and undefined - for those iter_text is not '
                    'observed; as_text() (join, then one decode) is checked against one-shot decoding for every codec including these',
-                   'translator tie: harness/pycontent2lean.py reads Content._iter_text, content_from_reader, _iter_chunks, ContentType.__repr__/_quote and '
+                   'translator tie: harness/pycontent2lean.py reads Content._iter_text, content_from_reader, content_from_stream / content_from_file, _iter_chunks, ContentType.__repr__/_quote and '
                    'the charset work-around of _make_content_type as data; TTV.ContentSkel gives the data its meaning (trusted: that the interpreter '
                    'reads the recognised statement forms as Python does); unrecognised statements become .unknown']
 
@@ -126,11 +133,11 @@ class C16(Prop):
                 'incremental decoder is independent of the chunking (Latin-1, ASCII and a UTF-8 state machine proved lawful; the machine proved equal to an '
                 'RFC 3629 reference decoder that accepts exactly the encodings of scalar-value texts; the encoder proved equal to core Lean\'s '
                 'String.utf8EncodeChar); text_content round-trips under every chunking; _iter_chunks yields non-empty chunks <= chunk_size that concatenate '
-                'to the bytes from the clamped seek position to EOF, lazily unless buffer_now; Content equality = type and bytes; ContentType render/parse '
+                'to the bytes from the clamped seek position to EOF, lazily unless buffer_now - in EVERY consumption of a file, a buffered content and a stream content with a seek offset (which seeks again each time; without an offset a consumed stream is legitimately empty the second time), such contents equal to themselves however often compared; Content equality = type and bytes; ContentType render/parse '
                 'round trip for lower-case token type/subtype, any token as parameter name and arbitrary values outside four recorded finding classes (one of them: names that are not lower-case tokens without * \' %), names in any letter case coming back lower-cased '
                 'and every answer independent of what was parsed before (no state in the model; sequences with case variants and scribbled-on results in the check); '
                 '_copy_content copies are snapshots '
-                'evaluated once. The hand-written model is tied to the code (a) by theorems C16_src_* proving that iterText, the buffer_now step, the chunk '
+                'evaluated once. The hand-written model is tied to the code (a) by theorems C16_src_* proving that iterText, the buffer_now step, the per-evaluation reader of content_from_stream / content_from_file, the chunk '
                 'loop, render/quoteValue and fixCharset ARE the interpretation of statement skeletons re-read from content.py, content_type.py and real.py on '
                 'every run, (b) by a differential check on instrumented streams/files (incl. short-reading raw streams), real codecs, re-used Content objects '
                 'and the real email-based parser.',
@@ -251,9 +258,10 @@ class C16(Prop):
         at, aerr, pieces, err = first
         return ['decode', some(at), some(aerr), some(pieces), some(err), whole]
 
-    def impl_stream(self, is_file, data0, data1, pos0, size, seek, buffer_now, iters, caps):
+    def impl_stream(self, is_file, data0, data1, pos0, size, seek, buffer_now, iters, caps, eqs=0):
         import testtools.content as tc
         log = []
+        eqlog = []
         data0 = bytes(data0)
         data1 = None if data1 is None else bytes(data1[1])
         kw = dict(chunk_size=size, buffer_now=buffer_now)
@@ -281,7 +289,7 @@ class C16(Prop):
                 c = make()
             except (ValueError, OSError) as e:
                 log.append(['raised', exc_name(e)])
-                return ['stream', log]
+                return ['stream', log, eqlog]
             log.append('made')
             if data1 is not None:
                 if is_file:
@@ -306,7 +314,21 @@ class C16(Prop):
                         log.append(['raised', exc_name(e)])
                         break
                     log.append(['chunk', list(ch)])
-            return ['stream', log]
+            # second part of the log: `c == c`, eqs times - every comparison evaluates the content twice; the stream's own events
+            # and the answers (seed C16-f: the generator object captured instead of the generator function called)
+            mark = len(log)
+            for _ in range(eqs):
+                if not is_file:
+                    spy.restart()
+                try:
+                    r = (c == c)
+                except (ValueError, OSError) as e:
+                    log.append(['raised', exc_name(e)])
+                    continue
+                log.append(['eqSelf', r is True] if isinstance(r, bool) else ['raised', 'eq-not-bool'])
+            eqlog.extend(log[mark:])
+            del log[mark:]
+            return ['stream', log, eqlog]
         finally:
             if is_file:
                 if 'open' in tc.__dict__:
@@ -518,7 +540,7 @@ class C16(Prop):
         caps = []
         if rng.random() < 0.45:       # a raw stream: short reads before end of file
             caps = [rng.choice([1, 1, 2, 3, max(1, size - 1), size, size + 1]) for _ in range(rng.choice([1, 1, 2, 3, 5]))]
-        return ['stream', is_file, data0, data1, pos0, size, seek, rng.random() < 0.4, rng.choice([1, 1, 2, 3]), caps]
+        return ['stream', is_file, data0, data1, pos0, size, seek, rng.random() < 0.4, rng.choice([1, 1, 2, 3]), caps, rng.choice([0, 0, 1, 2])]
 
     VALUE_ALPHA = ['a', 'b', 'Z', '0', ' ', '\t', '"', '\\', ';', ',', '=', '/', '?', '*', "'", '%', 'é', '\x00', '(', ')', '<', '>', '@', ':',
                    '[', ']', '\x7f', '\x80', '€', '\U0001F600', '.', '-', '_']
@@ -666,12 +688,14 @@ class C16(Prop):
                         for bn in (False, True):
                             for is_file in (False, True):
                                 seek = None if off is None else some([off, wh])
-                                yield ['stream', is_file, data, None, 0, size, seek, bn, 1, []]
+                                # a lazy stream content with an offset: consumed twice and compared with itself (seed C16-f)
+                                again = not is_file and not bn and seek is not None
+                                yield ['stream', is_file, data, None, 0, size, seek, bn, 2 if again else 1, [], 1 if again or size == 2 else 0]
                                 if n and not is_file and wh == 1:
-                                    yield ['stream', False, data, some(data[::-1]), n // 2, size, seek, bn, 2, []]
+                                    yield ['stream', False, data, some(data[::-1]), n // 2, size, seek, bn, 2, [], 1]
                                 if size > 1 and n > 1 and wh == 0:
                                     for caps in ([1], [size - 1], [size, 1], [2, 1, size]):
-                                        yield ['stream', is_file, data, None, 0, size, seek, bn, 1 if is_file else 2, caps]
+                                        yield ['stream', is_file, data, None, 0, size, seek, bn, 1 if is_file else 2, caps, len(caps) - 1]
 
     # ------------------------------------------------------------------ evidence
     def nontrivial(self, inp, trace):
@@ -721,9 +745,9 @@ class C16(Prop):
                 f.append('decode:non-text-type')
             f.append('decode:reuse-observations=%s' % (2 * (n + 1) if n < 4 else '10+'))
         elif k == 'stream':
-            _, is_file, d0, d1, pos0, size, seek, bn, iters, caps = inp
+            _, is_file, d0, d1, pos0, size, seek, bn, iters, caps, eqs = (inp + [0])[:11]
             n = len(d0)
-            f += ['stream:' + ('file' if is_file else 'bytesio'), 'stream:buffer_now=%s' % bn, 'stream:iters=%d' % iters,
+            f += ['stream:' + ('file' if is_file else 'bytesio'), 'stream:buffer_now=%s' % bn, 'stream:iters=%d' % iters, 'stream:eqs=%d' % eqs,
                   'stream:size' + ('<len' if size < n else '=len' if size == n else '>len'),
                   'stream:len%%size=%s' % ('0' if n and n % size == 0 else 'other')]
             if seek is None:
@@ -744,6 +768,11 @@ class C16(Prop):
                 f.append('stream:seek-raised')
             nch = sum(1 for e in trace[1] if isinstance(e, list) and e[0] == 'chunk')
             f.append('stream:chunks=' + (str(nch) if nch < 4 else '4+'))
+            if not is_file and not bn and seek is not None and iters >= 2 and not any(isinstance(e, list) and e[0] == 'raised' for e in trace[1]):
+                f.append('stream:re-evaluated-with-offset:whence=%d' % seek[1][1])
+            for e in trace[2]:
+                if isinstance(e, list) and e[0] == 'eqSelf':
+                    f.append('stream:eq-self=%s' % e[1])
         elif k == 'ctype':
             f.append('ctype:params=%d' % len(inp[3]))
             vals = [txt(v) for _, v in inp[3]]
@@ -785,23 +814,30 @@ class C16(Prop):
                 if i + 1 < len(chunks):
                     yield inp[:3] + [chunks[:i] + [chunks[i] + chunks[i + 1]] + chunks[i + 2:]] + inp[4:]
         elif k == 'stream':
-            _, is_file, d0, d1, pos0, size, seek, bn, iters, caps = inp
-            if iters > 1:
-                yield ['stream', is_file, d0, d1, pos0, size, seek, bn, iters - 1, caps]
+            _, is_file, d0, d1, pos0, size, seek, bn, iters, caps, eqs = (inp + [0])[:11]
+            mk = lambda **kw: ['stream'] + [kw.get(n, v) for n, v in (('is_file', is_file), ('d0', d0), ('d1', d1), ('pos0', pos0), ('size', size),
+                                                                       ('seek', seek), ('bn', bn), ('iters', iters), ('caps', caps), ('eqs', eqs))]
+            if eqs:
+                yield mk(eqs=eqs - 1)
+            if iters > 1 or iters and eqs:
+                yield mk(iters=iters - 1)
             if d1 is not None:
-                yield ['stream', is_file, d0, None, pos0, size, seek, bn, iters, caps]
+                yield mk(d1=None)
             if d0:
-                yield ['stream', is_file, d0[:-1], d1, min(pos0, len(d0) - 1), size, seek, bn, iters, caps]
+                yield mk(d0=d0[:-1], pos0=min(pos0, len(d0) - 1))
             if pos0:
-                yield ['stream', is_file, d0, d1, 0, size, seek, bn, iters, caps]
+                yield mk(pos0=0)
             if seek is not None:
-                yield ['stream', is_file, d0, d1, pos0, size, None, bn, iters, caps]
+                yield mk(seek=None)
+                off, wh = seek[1]
+                if off:
+                    yield mk(seek=some([off - 1 if off > 0 else off + 1, wh]))
             for j in range(len(caps)):
-                yield ['stream', is_file, d0, d1, pos0, size, seek, bn, iters, caps[:j] + caps[j + 1:]]
+                yield mk(caps=caps[:j] + caps[j + 1:])
             if is_file:
-                yield ['stream', False, d0, d1, pos0, size, seek, bn, iters, caps]
+                yield mk(is_file=False)
             if size > 2:
-                yield ['stream', is_file, d0, d1, pos0, size - 1, seek, bn, iters, caps]
+                yield mk(size=size - 1)
         elif k == 'ctype':
             ps = inp[3]
             for i in range(len(ps)):
